@@ -31,8 +31,8 @@ How the statement is carried
 
 Known findings (the unchanged code violates the full-strength statements; each has a refutation with
 a concrete witness and a partial theorem that excludes exactly the class):
-* F27 `no-syllables`, `length-mismatch` (incl. `empty-phrase`), `word-freq-unchecked`: malformed lines
-  the parser accepts — `malformed_full_refuted`, `malformed_reported_partial`;
+* F27 `no-syllables`, `length-mismatch` (incl. `empty-phrase`), `phrase-whitespace`, `word-freq-unchecked`:
+  malformed lines the parser accepts — `malformed_full_refuted`, `malformed_reported_partial`;
 * F18 `F18-tone1` / `empty-phrase`: accepted lines whose dump does not read back —
   `roundtrip_full_refuted`, `dump_compile_roundtrip` (hypothesis `WellFormedRecord`);
 * F45 `invalid-utf8`: a line that is not valid UTF-8 aborts the run without a line number, `--skip-invalid` or
@@ -434,9 +434,11 @@ theorem clean_source_builds (f : Flags) (src : List Text) (h : (compileRun f src
   simp [h]
 
 /-- a line in the documented format: it parses even when the frequency is checked
-    (`--keep-word-freq`), has a phrase, at least one syllable, and one syllable per character -/
+    (`--keep-word-freq`), has a phrase without comma / white space, at least one syllable, and one syllable
+    per character -/
 def StrictLine (d : Nat) (l : Text) : Prop :=
-  ∃ r, parseLine d true l = .ok r ∧ r.phrase ≠ [] ∧ r.syls ≠ [] ∧ r.syls.length = r.phrase.length
+  ∃ r, parseLine d true l = .ok r ∧ r.phrase ≠ [] ∧ (∀ c ∈ r.phrase, sylSep c = false) ∧ r.syls ≠ [] ∧
+    r.syls.length = r.phrase.length
 
 /-- full-strength: every line that is not in the documented format is rejected -/
 def MalformedFull : Prop :=
@@ -446,7 +448,7 @@ def MalformedFull : Prop :=
 theorem malformed_full_refuted : ¬ MalformedFull := by
   intro h
   have hns : ¬ StrictLine 32 [28204, 32, 53] := by
-    rintro ⟨r, hr, _, h2, _⟩
+    rintro ⟨r, hr, _, _, h2, _⟩
     have : parseLine 32 true [28204, 32, 53] = .ok ⟨[28204], 5, []⟩ := by decide
     rw [this] at hr
     cases hr
@@ -464,11 +466,20 @@ theorem malformed_accepted_witnesses :
     parseLine 32 true [28204, 32, 97, 98, 99, 32, 12568, 12572, 715] = .error .badFreq ∧
     parseLine 32 false [34, 34, 32, 53, 32, 12568, 12572, 715] = .ok ⟨[], 5, [10268]⟩ := by decide
 
+/-- F27 `phrase-whitespace`: with `--csv`, `測試 ,5,ㄘㄜˋ ㄕˋ` compiles with the phrase `測試 ` (three characters), and
+    the plain dump of that record reads back as the phrase `測試`; ` 策,3,ㄘㄜˋ` keeps its frequency (two characters) -/
+theorem phrase_whitespace_accepted :
+    parseLine 44 false [28204, 35430, 32, 44, 53, 44, 12568, 12572, 715, 32, 12565, 715] =
+      .ok ⟨[28204, 35430, 32], 5, [10268, 8708]⟩ ∧
+    parseLine 32 false (dumpLine ⟨[28204, 35430, 32], 5, [10268, 8708]⟩) = .ok ⟨[28204, 35430], 5, [10268, 8708]⟩ ∧
+    parseLine 44 false [32, 31574, 44, 51, 44, 12568, 12572, 715] = .ok ⟨[32, 31574], 3, [10268]⟩ := by decide
+
 /-- the malformed lines the parser does not detect, as classes of what it makes of them -/
 def Undetected (d : Nat) (keep : Bool) (l : Text) : Prop :=
   ∃ r, parseLine d keep l = .ok r ∧
     (r.syls = []                                   -- class no-syllables
      ∨ r.syls.length ≠ r.phrase.length             -- class length-mismatch (incl. empty-phrase)
+     ∨ (∃ c ∈ r.phrase, sylSep c = true)           -- class phrase-whitespace
      ∨ ∃ e, parseLine d true l = .error e)         -- class word-freq-unchecked
 
 theorem parse_keep_irrelevant {d : Nat} {k k' : Bool} {l : Text} {r r' : Rec}
@@ -508,19 +519,28 @@ theorem malformed_reported_partial (f : Flags) (src : List Text) (i : Nat) (l : 
     apply hkn
     refine ⟨r, hp, ?_⟩
     cases hp' : parseLine f.delim true l with
-    | error e => exact Or.inr (Or.inr ⟨e, rfl⟩)
+    | error e => exact Or.inr (Or.inr (Or.inr ⟨e, rfl⟩))
     | ok r' =>
       obtain ⟨e1, e2⟩ := parse_keep_irrelevant hp hp'
       by_cases hs : r.syls = []
       · exact Or.inl hs
       · by_cases hlen : r.syls.length = r.phrase.length
-        · exfalso
-          apply hmal
-          refine ⟨r', hp', ?_, by rw [← e2]; exact hs, by rw [← e1, ← e2]; exact hlen⟩
-          intro hempty
-          rw [← e1] at hempty
-          rw [hempty] at hlen
-          exact hs (List.eq_nil_of_length_eq_zero hlen)
+        · by_cases hsep : ∀ c ∈ r.phrase, sylSep c = false
+          · exfalso
+            apply hmal
+            refine ⟨r', hp', ?_, by rw [← e1]; exact hsep, by rw [← e2]; exact hs, by rw [← e1, ← e2]; exact hlen⟩
+            intro hempty
+            rw [← e1] at hempty
+            rw [hempty] at hlen
+            exact hs (List.eq_nil_of_length_eq_zero hlen)
+          · refine Or.inr (Or.inr (Or.inl ?_))
+            apply Classical.byContradiction
+            intro hn
+            apply hsep
+            intro c hc
+            cases hcs : sylSep c with
+            | false => rfl
+            | true => exact absurd ⟨c, hc, hcs⟩ hn
         · exact Or.inr (Or.inl hlen)
 
 /-! ## 4b. lines that are not valid UTF-8 (finding F45) -/
